@@ -289,6 +289,73 @@ def _collect_to_loop(body, bi):
     return Body(j, body.crate)
 
 
+def _collect_result_to_loop(body, bi):
+    """dest: Result<Vec<T>, E> = X.collect()  ->
+         list = Vec::new(); loop { match next(&mut X) { None => break, Some(Ok(e)) => list.push(e), Some(Err(x)) => { dest = Err(x); goto after } } };
+         dest = Ok(list)                      (the documented behaviour of `FromIterator for Result`: stop at the first Err)"""
+    j = copy.deepcopy(body.j)
+    t = j['blocks'][bi]['term']
+    span = j['blocks'][bi]['tspan']
+    x = _plain(t['args'][0])
+    dest, target = t['dest'], t['target']
+    rty = j['locals'][dest['l']]['ty']
+    inner = rty[len('std::result::Result<'):]
+    # the Vec type is the first generic argument
+    depth, cut = 0, len(inner)
+    for n, ch in enumerate(inner):
+        if ch == '<':
+            depth += 1
+        elif ch == '>':
+            depth -= 1
+        elif ch == ',' and depth == 0:
+            cut = n
+            break
+    vty = inner[:cut].strip()
+
+    def new_local(ty):
+        j['locals'].append({'ty': ty, 'name': None, 'mut': True})
+        return len(j['locals']) - 1
+
+    def blk(stmts, term):
+        j['blocks'].append({'stmts': stmts, 'term': term, 'tspan': span, 'cleanup': False})
+        return len(j['blocks']) - 1
+    lst = new_local(vty)
+    r = new_local('&mut iter')
+    o = new_local('std::option::Option<std::result::Result<unknown, unknown>>')
+    d = new_local('isize')
+    d2 = new_local('isize')
+    y = new_local('std::result::Result<unknown, unknown>')
+    e = new_local('unknown')
+    er = new_local('unknown')
+    lr = new_local('&mut ' + vty)
+    u = new_local('()')
+    n_head = len(j['blocks'])
+    n_sw, n_some, n_push, n_err, n_back, n_end = (n_head + k for k in range(1, 7))
+    j['blocks'][bi]['term'] = {'k': 'call', 'func': {'path': 'std::vec::Vec::<T>::new', 'full': 'std::vec::Vec::<T>::new', 'name': 'new', 'gargs': []},
+                               'args': [], 'dest': {'l': lst, 'p': []}, 'target': n_head, 'unwind': None}
+    blk([{'k': 'assign', 'place': {'l': r, 'p': []}, 'rv': {'k': 'ref', 'mut': True, 'place': {'l': x, 'p': []}}, 'span': span}],
+        {'k': 'call', 'func': {'path': NEXT, 'full': NEXT, 'name': 'next', 'trait': 'std::iter::Iterator', 'gargs': []},
+         'args': [{'move': {'l': r, 'p': []}}], 'dest': {'l': o, 'p': []}, 'target': n_sw, 'unwind': None})
+    blk([{'k': 'assign', 'place': {'l': d, 'p': []}, 'rv': {'k': 'discr', 'place': {'l': o, 'p': []}}, 'span': span}],
+        {'k': 'switch', 'discr': {'move': {'l': d, 'p': []}}, 'targets': [['0', n_end], ['1', n_some]], 'otherwise': n_end})
+    blk([{'k': 'assign', 'place': {'l': y, 'p': []}, 'rv': {'k': 'use', 'op': {'move': {'l': o, 'p': [{'down': 1, 'name': 'Some'}, {'f': 0, 'name': '0', 'ty': 'unknown'}]}}}, 'span': span},
+         {'k': 'assign', 'place': {'l': d2, 'p': []}, 'rv': {'k': 'discr', 'place': {'l': y, 'p': []}}, 'span': span}],
+        {'k': 'switch', 'discr': {'move': {'l': d2, 'p': []}}, 'targets': [['0', n_push], ['1', n_err]], 'otherwise': n_err})
+    blk([{'k': 'assign', 'place': {'l': e, 'p': []}, 'rv': {'k': 'use', 'op': {'move': {'l': y, 'p': [{'down': 0, 'name': 'Ok'}, {'f': 0, 'name': '0', 'ty': 'unknown'}]}}}, 'span': span},
+         {'k': 'assign', 'place': {'l': lr, 'p': []}, 'rv': {'k': 'ref', 'mut': True, 'place': {'l': lst, 'p': []}}, 'span': span}],
+        {'k': 'call', 'func': {'path': 'std::vec::Vec::<T, A>::push', 'full': 'std::vec::Vec::<T, A>::push', 'name': 'push', 'gargs': []},
+         'args': [{'move': {'l': lr, 'p': []}}, {'move': {'l': e, 'p': []}}], 'dest': {'l': u, 'p': []}, 'target': n_back, 'unwind': None})
+    blk([{'k': 'assign', 'place': {'l': er, 'p': []}, 'rv': {'k': 'use', 'op': {'move': {'l': y, 'p': [{'down': 1, 'name': 'Err'}, {'f': 0, 'name': '0', 'ty': 'unknown'}]}}}, 'span': span},
+         {'k': 'assign', 'place': dest, 'rv': {'k': 'agg', 'agg': 'adt', 'adt': 'std::result::Result', 'variant': 1, 'variant_name': 'Err',
+                                               'field_names': ['0'], 'fields': [{'move': {'l': er, 'p': []}}]}, 'span': span}],
+        {'k': 'goto', 'target': target})
+    blk([], {'k': 'goto', 'target': n_head})
+    blk([{'k': 'assign', 'place': dest, 'rv': {'k': 'agg', 'agg': 'adt', 'adt': 'std::result::Result', 'variant': 0, 'variant_name': 'Ok',
+                                               'field_names': ['0'], 'fields': [{'move': {'l': lst, 'p': []}}]}, 'span': span}],
+        {'k': 'goto', 'target': target})
+    return Body(j, body.crate)
+
+
 def expand_lazy_iterators(body, crate, max_rounds=6):
     cur = body
     used = set()
@@ -305,6 +372,12 @@ def expand_lazy_iterators(body, crate, max_rounds=6):
                 if x is not None and _lazy(nodes, x) and dty.startswith('std::vec::Vec<') and not _generator_source(cur, nodes, x):
                     cur = _collect_to_loop(cur, bi)
                     used.add('collect@%s' % body.path)
+                    did = True
+                    break
+                if x is not None and _lazy(nodes, x) and dty.startswith('std::result::Result<std::vec::Vec<') and not t['dest']['p'] \
+                        and not _generator_source(cur, nodes, x):
+                    cur = _collect_result_to_loop(cur, bi)
+                    used.add('collect-result@%s' % body.path)
                     did = True
                     break
         if did:
